@@ -1,11 +1,14 @@
 #!/bin/sh
-# usage: tools/try_mutant.sh <patch.diff> <Cxx> [tier]   - apply a seeded change to /repo, run one check, always undo
+# usage: tools/try_mutant.sh <patch.diff> <Cxx> [tier]  - run one check against a seeded change WITHOUT touching /repo:
+# the change is applied in a scratch worktree of /repo HEAD and the check builds against it (VERIF_REPO); the worktree is removed afterwards.
 P="$(readlink -f "$1")"; ID="$2"; TIER="${3:-quick}"
-cd /repo || exit 2
-if ! git diff --quiet; then echo "/repo has uncommitted changes"; exit 2; fi
-git apply "$P" 2>/dev/null || { echo "patch does not apply"; git reset -q --hard HEAD; exit 2; }
-cd /verif && ./check "$ID" "$TIER" > /tmp/mutant_run.log 2>&1; RC=$?
-cd /repo && git reset -q --hard HEAD && git clean -fdq
-grep -E "VIOLATION|KNOWN-FINDING|signature|\] OK|machinery" /tmp/mutant_run.log | head -12
+W=$(mktemp -d /tmp/muttry.XXXXXX); rmdir "$W"
+git -C /repo worktree add -q --detach "$W" HEAD || exit 2
+trap 'git -C /repo worktree remove --force "$W" >/dev/null 2>&1; rm -rf "$W"' EXIT
+if ! git -C "$W" apply "$P" 2>/dev/null; then echo "patch does not apply"; exit 2; fi
+LOG=$(mktemp /tmp/mutant_run.XXXXXX.log)
+cd /verif && VERIF_REPO="$W" VERIF_EVIDENCE_DIR=/tmp/mutant_evidence ./check "$ID" "$TIER" > "$LOG" 2>&1; RC=$?
+grep -E "VIOLATION|KNOWN-FINDING|signature|\] OK|machinery" "$LOG" | head -12
+rm -f "$LOG"
 echo "exit=$RC"
 exit $RC
